@@ -10,6 +10,7 @@ import (
 	"errors"
 	"fmt"
 	"io"
+	"sort"
 	"sync"
 )
 
@@ -391,4 +392,56 @@ func WireReader(b []byte) (a uint64, n uint32) {
 	}
 	n = binary.BigEndian.Uint32(b[k+16:])
 	return a, n
+}
+
+// SEARCH-HIT
+type keyed struct {
+	Key uint64
+	End uint64
+}
+
+func BadSearchNoHitTest(tbl []keyed, k uint64) (uint64, bool) {
+	i := sort.Search(len(tbl), func(i int) bool { return tbl[i].Key >= k })
+	if i == len(tbl) {
+		return 0, false
+	}
+	return tbl[i].End, true
+}
+
+func GoodSearchHitTest(tbl []keyed, k uint64) (uint64, bool) {
+	i := sort.Search(len(tbl), func(i int) bool { return tbl[i].Key >= k })
+	if i == len(tbl) || tbl[i].Key != k {
+		return 0, false
+	}
+	return tbl[i].End, true
+}
+
+// ADVANCE-LOST
+func fileChunk(chunk []uint64, next uint64, out []uint64) {
+	for _, v := range chunk {
+		out[next] = v
+		next++
+	}
+}
+
+func fileChunkAdvancing(chunk []uint64, next uint64, out []uint64) uint64 {
+	for _, v := range chunk {
+		out[next] = v
+		next++
+	}
+	return next
+}
+
+func BadAdvanceLost(chunks [][]uint64, out []uint64) {
+	next := uint64(0)
+	for _, ch := range chunks {
+		fileChunk(ch, next, out)
+	}
+}
+
+func GoodAdvanceKept(chunks [][]uint64, out []uint64) {
+	next := uint64(0)
+	for _, ch := range chunks {
+		next = fileChunkAdvancing(ch, next, out)
+	}
 }
